@@ -1,7 +1,7 @@
 (* C04  The dialogue carries the exact envelope, whatever the server says.  Statements only. *)
 From Coq Require Import Strings.String.
 From LV Require Import Base.Bytes Base.Str Base.Res Model.Codec Model.Response Model.ServerInfo Model.Client
-  Spec.Xtext Proofs.ClientProofs Proofs.XtextProofs.
+  Spec.Xtext Proofs.ClientProofs Proofs.XtextProofs Proofs.HelloProofs.
 
 (* Order and exactness: on every peer script the units written by send() are a prefix of
    MAIL FROM:<reverse-path> [SMTPUTF8] [BODY=8BITMIME], RCPT TO:<a> for each recipient in
@@ -48,6 +48,18 @@ Proof.
       cbn in H; repeat (destruct H as [H|H]; [discriminate|]); contradiction.
 Qed.
 
+(* Client hello names: for EVERY hello name the caller configures and every peer, each unit written while connecting
+   (greeting, EHLO) is one CRLF-terminated line without another CR or LF; a name holding CR or LF is refused with a
+   client error and nothing but QUIT is written (ClientId::check, F42). *)
+Theorem C04_hello_single_line : forall (hello : bytes) (sc : list chunk),
+  Forall (fun u => exists body, u = ULine (body ++ CRLF) /\ line_safe body) (ulog (snd (connect hello sc))).
+Proof. exact connect_one_line. Qed.
+Theorem C04_hello_refused : forall (hello : bytes) (sc : list chunk), hello_ok hello = false ->
+  (exists e, fst (connect hello sc) = Err e) /\ Forall (fun u => u = ULine QUIT) (ulog (snd (connect hello sc))).
+Proof. exact connect_refused. Qed.
+Example C04_example_hello : hello_ok (bs "a" ++ CRLF ++ bs "NOOP") = false /\ hello_ok (bs "client.example") = true.
+Proof. split; reflexivity. Qed.
+
 (* Extension parameter values are valid xtext and decode to the value (ASCII values) *)
 Theorem C04_xtext : forall v : bytes, is_ascii v = true -> xdec (xtext v) = Some v.
 Proof. exact xtext_decodes. Qed.
@@ -63,3 +75,5 @@ Print Assumptions C04_ext_iff.
 Print Assumptions C04_rcpt_single_line.
 Print Assumptions C04_xtext.
 Print Assumptions C04_xtext_line_safe.
+Print Assumptions C04_hello_single_line.
+Print Assumptions C04_hello_refused.
